@@ -94,6 +94,8 @@ func runC17(c *Ctx, r *Report) {
 	defer c17r12(c, r)
 	defer c17r13(c, r)
 	defer c17r14(c, r)
+	defer c17r15(c, r)
+	defer c17r16(c, r)
 	po := l.Fn("fzf", "ParseOptions")
 	pos := l.Fn("fzf", "parseOptions")
 	if po == nil || pos == nil {
